@@ -10,6 +10,7 @@ import (
 	"io"
 	"log"
 	"os"
+	"reflect"
 	"sort"
 	"strings"
 	"sync"
@@ -17,6 +18,7 @@ import (
 	"testing"
 	"testing/synctest"
 	"time"
+	"unsafe"
 
 	"cell2verif/hx"
 
@@ -32,6 +34,7 @@ import (
 	"github.com/dfklegend/cell2/utils/common"
 	"github.com/dfklegend/cell2/utils/logger"
 
+	mmocommon "mmo/common"
 	"mmo/common/define"
 	mymsg "mmo/messages"
 	"mmo/servers/center"
@@ -64,7 +67,9 @@ type env struct {
 	pending []*pendingOff // unanswered offline requests (FIFO)
 	acks    []string      // acknowledgements passed to login callbacks during the current op
 	caseNo  int
-	seq     [nAccts + 2]int // per-account login counter
+	seq     [nAccts + 2]int           // per-account login counter
+	open    [nAccts + 2]map[int]int64 // per account: login request -> issue time, while unanswered
+	pr      *probeT
 }
 
 func (e *env) wait() { synctest.Wait() }
@@ -104,7 +109,7 @@ func newEnv() *env {
 	logger.GetLogProxy("exception").SetLogLevel(logrus.PanicLevel)
 	log.SetOutput(io.Discard)
 
-	e := &env{}
+	e := &env{pr: newProbe()}
 	e.system = actor.NewActorSystem()
 	sys := e.system
 	sys.ProcessRegistry.RegisterAddressResolver(func(pid *actor.PID) (actor.Process, bool) {
@@ -183,6 +188,9 @@ func (e *env) reset() {
 	e.mu.Lock()
 	e.kicks, e.offs, e.acks = nil, nil, nil
 	e.seq = [nAccts + 2]int{}
+	for i := range e.open {
+		e.open[i] = map[int]int64{}
+	}
 	e.mu.Unlock()
 	e.t0 = common.NowMs()
 }
@@ -214,15 +222,187 @@ func logicNo(s string) string {
 	return "0"
 }
 
-// snapshot: canonical per-account state through the overlay shim (read on the service goroutine)
+// ---------------------------------------------------------------- white-box probe
+//
+// The correspondence also compares the centre's per-account record.  What exported API gives
+// (Player.GetState / FrontId / NetId / GetLogicId) is read through it; the rest (the players map, the
+// transaction lock's held/kind/limit, the state's limit, the parked kick-wait task, the next scan time) is
+// read with reflect+unsafe, the fields being located by TYPE and SHAPE, never by name, so that renaming or
+// reordering unexported fields does not matter.  A part whose shape is no longer recognised is reported
+// as unresolved: the observation shows `?` there, the `reset` line tells the model driver (which echoes
+// `?`), the histogram counts probe.unresolved.<part>.  VERIF_C18_FORCE_UNRES=L,S forces that path.
+
+type probeT struct {
+	players   int   // field of PlayerMgr: map[int64]*Player
+	kw        int   // field of PlayerMgr: *KickWaitTaskMgr
+	tasks     int   // field of KickWaitTaskMgr: map[int64]*KickWaitTask
+	nextCheck int   // field of KickWaitTaskMgr: the only int64
+	lock      int   // field of Player: *PlayerTransactionLock
+	state     int   // field of Player: *StateWithTimeout
+	lkHeld    int   // lock: the only bool
+	lkKind    int   // lock: the only int
+	lkI64     []int // lock: int64 fields (limit, and the uid if still kept)
+	stLimit   int   // StateWithTimeout: the only int64
+	tkFront   int   // task: the only string
+	tkNet     int   // task: the only uint32
+	unres     map[string]bool
+}
+
+func fieldsOf(t reflect.Type, pred func(reflect.StructField) bool) []int {
+	var r []int
+	for i := 0; i < t.NumField(); i++ {
+		if pred(t.Field(i)) {
+			r = append(r, i)
+		}
+	}
+	return r
+}
+
+func one(xs []int) int {
+	if len(xs) == 1 {
+		return xs[0]
+	}
+	return -1
+}
+
+func ofType(want reflect.Type) func(reflect.StructField) bool {
+	return func(f reflect.StructField) bool { return f.Type == want }
+}
+
+func ofKind(k reflect.Kind) func(reflect.StructField) bool {
+	return func(f reflect.StructField) bool { return f.Type.Kind() == k }
+}
+
+func newProbe() *probeT {
+	p := &probeT{unres: map[string]bool{}}
+	mgrT := reflect.TypeOf(center.PlayerMgr{})
+	plT := reflect.TypeOf(center.Player{})
+	lkT := reflect.TypeOf(center.PlayerTransactionLock{})
+	stT := reflect.TypeOf(mmocommon.StateWithTimeout{})
+	kwT := reflect.TypeOf(center.KickWaitTaskMgr{})
+	tkT := reflect.TypeOf(center.KickWaitTask{})
+	p.players = one(fieldsOf(mgrT, ofType(reflect.TypeOf(map[int64]*center.Player{}))))
+	p.kw = one(fieldsOf(mgrT, ofType(reflect.TypeOf(&center.KickWaitTaskMgr{}))))
+	p.tasks = one(fieldsOf(kwT, ofType(reflect.TypeOf(map[int64]*center.KickWaitTask{}))))
+	p.nextCheck = one(fieldsOf(kwT, ofKind(reflect.Int64)))
+	p.lock = one(fieldsOf(plT, ofType(reflect.TypeOf(&center.PlayerTransactionLock{}))))
+	p.state = one(fieldsOf(plT, ofType(reflect.TypeOf(&mmocommon.StateWithTimeout{}))))
+	p.lkHeld = one(fieldsOf(lkT, ofKind(reflect.Bool)))
+	p.lkKind = one(fieldsOf(lkT, ofKind(reflect.Int)))
+	p.lkI64 = fieldsOf(lkT, ofKind(reflect.Int64))
+	p.stLimit = one(fieldsOf(stT, ofKind(reflect.Int64)))
+	p.tkFront = one(fieldsOf(tkT, ofKind(reflect.String)))
+	p.tkNet = one(fieldsOf(tkT, ofKind(reflect.Uint32)))
+	if p.players < 0 {
+		p.unres["P"] = true
+	}
+	if p.lock < 0 || p.lkHeld < 0 || p.lkKind < 0 || len(p.lkI64) < 1 || len(p.lkI64) > 2 {
+		p.unres["L"] = true
+	}
+	if p.state < 0 || p.stLimit < 0 {
+		p.unres["S"] = true
+	}
+	if p.kw < 0 || p.tasks < 0 {
+		p.unres["T"] = true
+	}
+	if p.tkFront < 0 || p.tkNet < 0 {
+		p.unres["C"] = true
+	}
+	if p.kw < 0 || p.nextCheck < 0 {
+		p.unres["N"] = true
+	}
+	for _, f := range strings.Split(os.Getenv("VERIF_C18_FORCE_UNRES"), ",") {
+		if f != "" {
+			p.unres[f] = true
+		}
+	}
+	return p
+}
+
+func (p *probeT) unresList() string {
+	var ks []string
+	for k := range p.unres {
+		ks = append(ks, k)
+	}
+	sort.Strings(ks)
+	return strings.Join(ks, ",")
+}
+
+// fld: the i-th field of the struct v points to, readable even when unexported
+func fld(v reflect.Value, i int) reflect.Value {
+	f := v.Elem().Field(i)
+	return reflect.NewAt(f.Type(), unsafe.Pointer(f.UnsafeAddr())).Elem()
+}
+
+type playerView struct {
+	present bool
+	p       *center.Player
+}
+
+func (e *env) player(u int64) (*center.Player, bool) {
+	m := fld(reflect.ValueOf(e.mgr), e.pr.players)
+	v := m.MapIndex(reflect.ValueOf(u))
+	if !v.IsValid() || v.IsNil() {
+		return nil, false
+	}
+	return v.Interface().(*center.Player), true
+}
+
+func (e *env) playerCount() int { return fld(reflect.ValueOf(e.mgr), e.pr.players).Len() }
+
+func (e *env) kwMgr() reflect.Value { return fld(reflect.ValueOf(e.mgr), e.pr.kw) }
+
+func (e *env) task(u int64) (reflect.Value, bool) {
+	v := fld(e.kwMgr(), e.pr.tasks).MapIndex(reflect.ValueOf(u))
+	if !v.IsValid() || v.IsNil() {
+		return v, false
+	}
+	return v, true
+}
+
+func (e *env) taskCount() int { return fld(e.kwMgr(), e.pr.tasks).Len() }
+
+// lockView: held, kind, limit of the player's transaction lock
+func (e *env) lockView(p *center.Player) (bool, int, int64) {
+	lk := fld(reflect.ValueOf(p), e.pr.lock)
+	held := fld(lk, e.pr.lkHeld).Bool()
+	kind := int(fld(lk, e.pr.lkKind).Int())
+	var limit int64
+	if len(e.pr.lkI64) == 1 {
+		limit = fld(lk, e.pr.lkI64[0]).Int()
+	} else {
+		// two int64 fields: one is the account id the lock was initialised with, the other the limit
+		a, b := fld(lk, e.pr.lkI64[0]).Int(), fld(lk, e.pr.lkI64[1]).Int()
+		if a == p.UId && b != p.UId {
+			limit = b
+		} else {
+			limit = a
+		}
+	}
+	return held, kind, limit
+}
+
+func (e *env) stateLimit(p *center.Player) int64 {
+	return fld(fld(reflect.ValueOf(p), e.pr.state), e.pr.stLimit).Int()
+}
+
+// snapshot: canonical per-account state (read on the service goroutine)
 func (e *env) snapshot() string {
 	var sb strings.Builder
+	un := e.pr.unres
 	e.onSvc(func() {
 		e.mu.Lock()
 		defer e.mu.Unlock()
 		for u := int64(1); u <= nAccts; u++ {
-			p := e.mgr.VerifPlayer(u)
-			t := e.mgr.VerifTask(u)
+			var p *center.Player
+			pPresent, tPresent := false, false
+			var t reflect.Value
+			if !un["P"] {
+				p, pPresent = e.player(u)
+			}
+			if !un["T"] {
+				t, tPresent = e.task(u)
+			}
 			po := 0
 			for _, q := range e.pending {
 				if q.uid == u {
@@ -230,40 +410,70 @@ func (e *env) snapshot() string {
 				}
 			}
 			sb.WriteString(" |")
-			if !p.Present && !t.Present && po == 0 {
+			if !un["P"] && !un["T"] && !pPresent && !tPresent && po == 0 {
 				sb.WriteString(" -")
 				continue
 			}
-			if p.Present {
-				lk := "-"
-				if p.Lock {
-					lk = fmt.Sprintf("%s@%d", name(reasonNames, p.Reason), e.rel(p.LkTimeout))
+			switch {
+			case un["P"]:
+				sb.WriteString(" st=?")
+			case pPresent:
+				st := "?"
+				if !un["S"] {
+					st = fmt.Sprint(e.rel(e.stateLimit(p)))
 				}
-				fmt.Fprintf(&sb, " st=%s@%d lk=%s c=%d:%d lg=%s", name(stateNames, p.State), e.rel(p.StTimeout), lk,
-					frontNo(p.Front), p.Net, logicNo(p.Logic))
-			} else {
+				lk := "?"
+				if !un["L"] {
+					lk = "-"
+					if held, kind, limit := e.lockView(p); held {
+						lk = fmt.Sprintf("%s@%d", name(reasonNames, kind), e.rel(limit))
+					}
+				}
+				fmt.Fprintf(&sb, " st=%s@%s lk=%s c=%d:%d lg=%s", name(stateNames, p.GetState()), st, lk,
+					frontNo(p.FrontId), p.NetId, logicNo(p.GetLogicId()))
+			default:
 				sb.WriteString(" st=-")
 			}
-			if t.Present {
-				fmt.Fprintf(&sb, " tk=%d:%d@%d", frontNo(t.Front), t.Net, e.rel(t.Start))
-			} else {
+			switch {
+			case un["T"]:
+				sb.WriteString(" tk=?")
+			case tPresent && un["C"]:
+				sb.WriteString(" tk=?:?")
+			case tPresent:
+				fmt.Fprintf(&sb, " tk=%d:%d", frontNo(fld(t, e.pr.tkFront).String()), fld(t, e.pr.tkNet).Uint())
+			default:
 				sb.WriteString(" tk=-")
 			}
 			fmt.Fprintf(&sb, " po=%d", po)
 		}
-		np, nt := e.mgr.VerifCounts()
-		fmt.Fprintf(&sb, " | nc=%d np=%d nt=%d", e.rel(e.mgr.VerifNextCheck()), np, nt)
+		nc, np, nt := "?", "?", "?"
+		if !un["N"] {
+			nc = fmt.Sprint(e.rel(fld(e.kwMgr(), e.pr.nextCheck).Int()))
+		}
+		if !un["P"] {
+			np = fmt.Sprint(e.playerCount())
+		}
+		if !un["T"] {
+			nt = fmt.Sprint(e.taskCount())
+		}
+		fmt.Fprintf(&sb, " | nc=%s np=%s nt=%s", nc, np, nt)
 	})
 	return sb.String()
 }
 
-func (e *env) expiredTasks() int {
+// staleUnanswered: accounts that have a login request issued more than 30 s ago and not answered so far
+// (a parked login that may have expired).  Two of them at a scan = Go map order decides which parked login
+// is dropped: such operations are not driven.  Computed from the observable history only; the model
+// driver applies the same rule.
+func (e *env) staleUnanswered() int {
 	n := 0
 	now := common.NowMs()
-	for u := int64(1); u <= nAccts; u++ {
-		t := e.mgr.VerifTask(u)
-		if t.Present && now > t.Start+30*1000 {
-			n++
+	for u := 1; u <= nAccts; u++ {
+		for _, t := range e.open[u] {
+			if now > t+30*1000 {
+				n++
+				break
+			}
 		}
 	}
 	return n
@@ -310,8 +520,9 @@ func (e *env) exec(op string) string {
 	switch ws[0] {
 	case "closed", "logined", "offreply":
 		// the map-order dependent case (two parked logins expired at one scan) is not driven
-		skip := false
-		e.onSvc(func() { skip = common.NowMs() >= e.mgr.VerifNextCheck() && e.expiredTasks() >= 2 })
+		e.mu.Lock()
+		skip := e.staleUnanswered() >= 2
+		e.mu.Unlock()
 		if skip {
 			return "nondet"
 		}
@@ -346,14 +557,19 @@ func (e *env) exec(op string) string {
 		}
 		f, n, k := hx.KVInt(ws, "f"), uint32(hx.KVInt(ws, "n")), hx.KVInt(ws, "k") == 1
 		e.seq[uid]++
-		id := fmt.Sprintf("%d.%d", uid, e.seq[uid])
+		k8 := e.seq[uid]
+		id := fmt.Sprintf("%d.%d", uid, k8)
 		cn := e.caseNo
+		e.mu.Lock()
+		e.open[uid][k8] = common.NowMs()
+		e.mu.Unlock()
 		cb := func(err error, r interface{}) {
 			e.mu.Lock()
 			defer e.mu.Unlock()
 			if cn != e.caseNo {
 				return
 			}
+			delete(e.open[uid], k8)
 			if a, ok := r.(*mymsg.CenterReqLoginAck); ok && err == nil {
 				e.acks = append(e.acks, fmt.Sprintf("%s:%d:%s", id, n, codeName(a)))
 			} else {
@@ -451,8 +667,9 @@ type gen struct {
 	mark     []int64 // times at which something with a time limit started
 	uids     int
 	conns    [][2]int
-	last     string // the implementation's last observation
-	afterAdv bool   // the previous op was a clock advance: probe the limits now
+	dl       []int64 // armed limits (see deadlines)
+	last     string  // the implementation's last observation
+	afterAdv bool    // the previous op was a clock advance: probe the limits now
 }
 
 func (g *gen) uid() int {
@@ -476,35 +693,27 @@ func (g *gen) conn() (int, int) {
 	return c[0], c[1]
 }
 
-// deadlines the implementation currently shows (lock limits, state limits, expiry of a parked
-// login, next expiry scan), relative to the case start
+// deadlines: the limits armed so far, computed by the generator from what is observable (an
+// acknowledgement, an accepted request, a login left unanswered = parked, a scan) plus the constants
+// of define.go / playermgr.go / kickwait.go — not read out of the implementation
 func (g *gen) deadlines() []int64 {
 	var ds []int64
-	for _, w := range hx.Words(g.last) {
-		i := strings.IndexByte(w, '@')
-		if i < 0 || !(strings.HasPrefix(w, "lk=") || strings.HasPrefix(w, "st=") || strings.HasPrefix(w, "tk=")) {
-			if strings.HasPrefix(w, "nc=") {
-				var t int64
-				fmt.Sscanf(w[3:], "%d", &t)
-				if t > 0 {
-					ds = append(ds, t)
-				}
-			}
-			continue
-		}
-		var t int64
-		fmt.Sscanf(w[i+1:], "%d", &t)
-		if strings.HasPrefix(w, "tk=") {
-			t += 30000
-		}
-		if t > 0 {
-			ds = append(ds, t)
+	for _, d := range g.dl {
+		if d >= g.now {
+			ds = append(ds, d)
 		}
 	}
+	g.dl = append(g.dl[:0], ds...)
 	return ds
 }
 
-// advance: mostly to just before / exactly at / just after a time limit the implementation shows,
+func (g *gen) arm(ms ...int64) {
+	for _, d := range ms {
+		g.dl = append(g.dl, g.now+d)
+	}
+}
+
+// advance: mostly to just before / exactly at / just after an armed time limit,
 // else relative to an instant at which something with a limit started
 func (g *gen) adv() string {
 	r := g.h.R
@@ -660,6 +869,31 @@ func opKind(op string) string {
 func (g *gen) account(op, obs string) {
 	h := g.h
 	if strings.HasPrefix(obs, "ret=") {
+		ows := hx.Words(obs)
+		a, _ := hx.KV(ows, "acks")
+		switch {
+		case strings.Contains(a, ":ok"):
+			g.arm(120000, 300000)
+		case strings.Contains(a, ":re"):
+			g.arm(180000)
+		}
+		if opKind(op) == "login" && !strings.Contains(a, ":ok") && !strings.Contains(a, ":re") && !strings.Contains(a, ":already") {
+			g.arm(30000) // left unanswered (parked), or answered busy
+		}
+		if r, _ := hx.KV(ows, "ret"); r == "t" {
+			switch opKind(op) {
+			case "logoutreq":
+				g.arm(180000, 1800000)
+			case "swbegin":
+				g.arm(180000)
+			}
+		}
+		switch opKind(op) {
+		case "offreply", "closed", "logined":
+			g.arm(3000)
+		}
+	}
+	if strings.HasPrefix(obs, "ret=") {
 		g.reach(op, g.last, obs)
 		g.last = obs
 	}
@@ -751,6 +985,7 @@ func (g *gen) reach(op, prev, cur string) {
 func (g *gen) newCase() {
 	r := g.h.R
 	g.now = 0
+	g.dl = g.dl[:0]
 	g.last = ""
 	g.mark = g.mark[:0]
 	g.uids = 1
@@ -766,6 +1001,23 @@ func (g *gen) newCase() {
 
 // ---------------------------------------------------------------- test entry points
 
+// emit executes one op and records it; a `reset` line is recorded with the parts of the white-box
+// probe that could not be resolved against the code under test (the model driver echoes `?` for them)
+func emit(h *hx.T, e *env, op string) string {
+	obs := e.exec(op)
+	if ws := hx.Words(op); len(ws) > 0 && ws[0] == "reset" {
+		op = "reset"
+		if u := e.pr.unresList(); u != "" {
+			op += " unres=" + u
+			for _, k := range strings.Split(u, ",") {
+				h.Count("probe.unresolved." + k)
+			}
+		}
+	}
+	h.Emit(op, obs)
+	return obs
+}
+
 func bubble(t *testing.T, body func(e *env, h *hx.T)) {
 	synctest.Test(t, func(t *testing.T) {
 		h := hx.Open()
@@ -779,9 +1031,7 @@ func bubble(t *testing.T, body func(e *env, h *hx.T)) {
 func TestRun(t *testing.T) {
 	bubble(t, func(e *env, h *hx.T) {
 		run := func(op string) string {
-			obs := e.exec(op)
-			h.Emit(op, obs)
-			return obs
+			return emit(h, e, op)
 		}
 		if ops := hx.ReplayOps(); ops != nil {
 			for _, op := range ops {
@@ -820,10 +1070,10 @@ func TestExhaustive(t *testing.T) {
 		idx := make([]int, depth)
 		total := 0
 		for {
-			h.Emit("reset", e.exec("reset"))
+			emit(h, e, "reset")
 			for _, i := range idx {
 				op := exhAlphabet[i]
-				h.Emit(op, e.exec(op))
+				emit(h, e, op)
 			}
 			total++
 			k := depth - 1
@@ -848,6 +1098,7 @@ func TestExhaustive(t *testing.T) {
 // stays passed).  Used only to prune the reachability search below, never compared with the model.
 func (e *env) stateKey() string {
 	var sb strings.Builder
+	un := e.pr.unres
 	e.onSvc(func() {
 		e.mu.Lock()
 		defer e.mu.Unlock()
@@ -859,26 +1110,36 @@ func (e *env) stateKey() string {
 			return fmt.Sprint(t - now)
 		}
 		for u := int64(1); u <= nAccts; u++ {
-			p := e.mgr.VerifPlayer(u)
-			t := e.mgr.VerifTask(u)
-			if p.Present {
-				st := "0"
-				if p.StTimeout != 0 {
-					st = fut(p.StTimeout)
+			if p, ok := e.player(u); !un["P"] && ok {
+				st, lk := "?", "?"
+				if !un["S"] {
+					st = "0"
+					if l := e.stateLimit(p); l != 0 {
+						st = fut(l)
+					}
 				}
-				lk := "-"
-				if p.Lock {
-					lk = fmt.Sprintf("%d@%s", p.Reason, fut(p.LkTimeout))
+				if !un["L"] {
+					lk = "-"
+					if held, kind, limit := e.lockView(p); held {
+						lk = fmt.Sprintf("%d@%s", kind, fut(limit))
+					}
 				}
-				fmt.Fprintf(&sb, "P%d:%s:%s:%s:%d:%s;", p.State, st, lk, p.Front, p.Net, p.Logic)
+				fmt.Fprintf(&sb, "P%d:%s:%s:%s:%d:%s;", p.GetState(), st, lk, p.FrontId, p.NetId, p.GetLogicId())
 			} else {
 				sb.WriteString("P-;")
 			}
-			if t.Present {
-				fmt.Fprintf(&sb, "T%s:%d:%s;", t.Front, t.Net, fut(t.Start+30*1000+1))
+			if t, ok := e.task(u); !un["T"] && ok && !un["C"] {
+				fmt.Fprintf(&sb, "T%s:%d;", fld(t, e.pr.tkFront).String(), fld(t, e.pr.tkNet).Uint())
 			} else {
 				sb.WriteString("T-;")
 			}
+			// unanswered logins (the parked one among them): their ages decide expiry
+			var ages []string
+			for _, t0 := range e.open[u] {
+				ages = append(ages, fut(t0+30*1000+1))
+			}
+			sort.Strings(ages)
+			sb.WriteString("A" + strings.Join(ages, ",") + ";")
 			for _, q := range e.pending {
 				if q.uid == u {
 					fmt.Fprintf(&sb, "O%d;", now-q.sent)
@@ -886,7 +1147,9 @@ func (e *env) stateKey() string {
 			}
 			sb.WriteString("|")
 		}
-		sb.WriteString("N" + fut(e.mgr.VerifNextCheck()))
+		if !un["N"] {
+			sb.WriteString("N" + fut(fld(e.kwMgr(), e.pr.nextCheck).Int()))
+		}
 	})
 	return sb.String()
 }
@@ -906,7 +1169,7 @@ func TestReachable(t *testing.T) {
 		depth := hx.EnvInt("VERIF_DEPTH", 6)
 		maxOps := hx.EnvInt("VERIF_MAXOPS", 300000)
 		seen := map[string]bool{}
-		h.Emit("reset", e.exec("reset"))
+		emit(h, e, "reset")
 		seen[e.stateKey()] = true
 		frontier := [][]string{{}}
 		done := 0
@@ -919,12 +1182,11 @@ func TestReachable(t *testing.T) {
 					break
 				}
 				for _, a := range reachAlphabet {
-					h.Emit("reset", e.exec("reset"))
+					emit(h, e, "reset")
 					for _, op := range seq {
-						h.Emit(op, e.exec(op))
+						emit(h, e, op)
 					}
-					obs := e.exec(a)
-					h.Emit(a, obs)
+					obs := emit(h, e, a)
 					if !strings.HasPrefix(obs, "ret=") {
 						continue
 					}
